@@ -286,7 +286,7 @@ IO_PLAN = {
                      "returns a graph whose observers can all be read, or throws something derived from std::exception. ASan+UBSan+_GLIBCXX_ASSERTIONS in-process; an "
                      "input that kills the process is re-run in a forked child and reported; thorough adds valgrind memcheck over the truncation cases",
                 floors={"cut_offsets_loaded": 20000, "cuts_inside_a_record": 15000, "malformed_text_inputs": 3000, "malformed_text_loader_threw_std_exception": 800,
-                        "malformed_text_loader_returned": 300}),
+                        "malformed_text_loader_returned": 300, "cut_offsets_loaded_under_memcheck": 2000}),
 }
 
 
@@ -299,8 +299,25 @@ def run_io(prop, tier, seed):
                         isolate_args=["--x-isolate", "1"] if prop == "C15" else None)
     c = res.counters
     evaluations = cases
+    memcheck = None
     if prop == "C15":
         evaluations = int(c.get("cut_offsets_loaded", 0) + c.get("malformed_text_inputs", 0))
+        # the uninitialised-read half of the claim: the truncation cases again under valgrind memcheck (uninstrumented -O1 build)
+        plain = V.build_engine(IO, "plain")
+        mcases = 48 if tier == "quick" else 1400
+        r2 = V.run_sharded(prop, plain, ["--mode", "truncate-only"], mcases, seed, tier, V.NCPU, 1200 if tier == "quick" else 10800, replay_dir(prop),
+                           prefix=["valgrind", "--quiet", "--error-exitcode=66", "--exit-on-first-error=yes", "--track-origins=yes", "--num-callers=25"],
+                           tag="io-memcheck")
+        for v in r2.viols:
+            v = dict(v)
+            v["key"] = "memcheck/" + v["key"]
+            res.viols.append(v)
+        if r2.inconclusive and not res.inconclusive:
+            res.inconclusive = "[memcheck] " + r2.inconclusive
+        memcheck = {"truncated_source_files": r2.counters.get("truncated_source_files", 0), "cut_offsets_loaded_under_memcheck": r2.counters.get("cut_offsets_loaded", 0),
+                    "memcheck_reports": len(r2.viols)}
+        c["cut_offsets_loaded_under_memcheck"] = r2.counters.get("cut_offsets_loaded", 0)
+        evaluations += int(r2.counters.get("cut_offsets_loaded", 0))
     coverage = {
         "evaluations": int(evaluations),
         "distinct_nontrivial": res.n_distinct(),
@@ -310,6 +327,8 @@ def run_io(prop, tier, seed):
         "build": "g++ -O1 -fsanitize=address,undefined -fno-sanitize-recover=all -D_GLIBCXX_ASSERTIONS",
         "exhaustive": False,
     }
+    if memcheck is not None:
+        coverage["valgrind_memcheck"] = memcheck
     assume = list(ASSUME_COMMON)
     if prop == "C14":
         assume.append("this host is little-endian: the byte-swapping branch for big-endian hosts is not executable here; 'any host' is observed as this host plus an independent encoder")
@@ -522,7 +541,7 @@ for p in SHAPE_PLAN:
 for p in PATHS_PLAN:
     PROPS[p] = {"title": TITLES[p], "run": run_paths, "engines": [("paths", "asan")]}
 for p in IO_PLAN:
-    PROPS[p] = {"title": TITLES[p], "run": run_io, "engines": [("io", "asan")]}
+    PROPS[p] = {"title": TITLES[p], "run": run_io, "engines": [("io", "asan")] + ([("io", "plain")] if p == "C15" else [])}
 PROPS["C17"] = {"title": TITLES["C17"], "run": run_c17, "engines": [(e, f) for e in ("hist-lite", "shape-lite", "paths", "io-lite") for f in ("asan", "debug", "o2", "clang-asan")]}
 PROPS["C18"] = {"title": TITLES["C18"], "run": run_c18, "engines": [("race", "tsan"), ("race", "clang-tsan")]}
 PROPS["C07"] = {"title": TITLES["C07"], "run": run_c07, "engines": [("reject", "asan")]}
@@ -548,6 +567,36 @@ def build_all():
                 log("build failed:", e)
                 rc = 2
     return rc
+
+
+def gc_build():
+    """./check --gc: drop cached objects / binaries that do not belong to the current /repo headers and harness sources."""
+    import glob
+    todo = set()
+    for p, d in PROPS.items():
+        for e in d["engines"]:
+            todo.add(e)
+    for fl in C17_FLAVORS["thorough"]:
+        for e in LITE.values():
+            todo.add((e["name"], "plain" if fl == "valgrind" else fl))
+    todo.add(("io", "plain"))
+    keep = set()
+    for name, flavor in todo:
+        objs, binary = V.engine_paths(ENGINES[name], flavor)
+        keep |= objs
+        keep.add(binary)
+        keep.add(binary + ".failures.json")
+    removed = 0
+    for f in glob.glob(os.path.join(V.BUILD, "*")):
+        if f in keep:
+            continue
+        try:
+            os.remove(f)
+            removed += 1
+        except OSError:
+            pass
+    log("gc: removed %d stale files from %s" % (removed, V.BUILD))
+    return 0
 
 
 def replay(prop, path):
